@@ -516,6 +516,15 @@ var c09Templates = []struct {
 	{Node{T: "cond", KW: "plain", Op: OpDesc{K: "user", Text: "~=", Ctx: "c"}, Expr: &Node{T: "leaf", Leaf: &Val{K: "int", I: 7}}}, false},
 }
 
+func isIntParamMethod(name string) bool {
+	for _, m := range intParamMethods {
+		if m.Name == name {
+			return true
+		}
+	}
+	return false
+}
+
 func enumC09(tier Tier, yield func(C09Case)) {
 	variants := 12
 	if tier.Thorough {
@@ -531,6 +540,19 @@ func enumC09(tier Tier, yield func(C09Case)) {
 				yield(C09Case{Recv: tpl.n, Rich: tpl.rich, Calls: []C17Call{{Method: m.Name, Variant: v}}})
 				if v < 3 {
 					yield(C09Case{Recv: tpl.n, Rich: tpl.rich, Invalid: true, Calls: []C17Call{{Method: m.Name, Variant: v + 3}}})
+				}
+			}
+			if !tpl.n.IsCond() && isIntParamMethod(m.Name) {
+				// every index value of the synthesis table under every combination of the index options (and LIFO/FIFO)
+				for opt := 0; opt < 8; opt++ {
+					n := tpl.n
+					n.NegIdx, n.FwdIdx, n.FIFO = opt&1 != 0, opt&2 != 0, opt&4 != 0
+					if n.NegIdx == tpl.n.NegIdx && n.FwdIdx == tpl.n.FwdIdx && n.FIFO == tpl.n.FIFO {
+						continue
+					}
+					for v := 0; v < 14; v++ {
+						yield(C09Case{Recv: n, Rich: tpl.rich, Calls: []C17Call{{Method: m.Name, Variant: v}}})
+					}
 				}
 			}
 			if anyParamMethod(m) {
